@@ -39,6 +39,16 @@ QUEUE_TRUSTED = [
 ]
 
 PROPS = {
+    "C14": {
+        "props_file": "Props/C14.v",
+        "theorems": ["c14_count", "c14_keys", "c14_matrix_product_exact", "c14_matrix_product_count", "c14_matrix_product_distinct", "c14_names_distinct", "c14_vars_identify_index", "c14_admission_count_keys", "c14_admission_matrix"],
+        "families": [{"name": "parallel", "n_quick": 2000, "n_thorough": 80000}],
+        "rule": "parallel: generated parallelism specs (withCount incl. 0, negative, 58/69/70/120; key lists with duplicates, empties, prefixes/permutations; matrices with 1-3 keys x 0-3 values, duplicates, invalid keys; several or no types at once) through ValidateParallelismSpec, GenerateIndexes (panics caught), HashIndex, GenerateTaskName, MakeVariablesFromTask and NewPod for every index in sequence on the same Job object; non-trivial = more than one index; distinct by spec",
+        "trusted": ["oracle: parallel.HashIndex (hashstructure FNV -> decimal -> base32 -> first 6); hashes of the run's indexes are compared for collisions by the monitor", "the withMatrix key regexp is an oracle bit per case"],
+        "assumptions": ["partial: 'the odometer loop of GenerateMatrixCombinations = the lexicographic cartesian product' is checked by the stream on every generated matrix (model odometer = implementation) and on the Example, not proved in general; the theorems about completeness/distinctness of combinations are about the product"],
+        "level_text": "Theorems: withCount/withKeys expansion exact and in order; the cartesian product is complete, of the right size and duplicate-free for duplicate-free lists; task names are injective in (hash, retry); the index variables identify the index; accepted specs have no duplicate or empty lists. The faithful odometer model is tied to the code by the parallel stream; hash collisions are judged by the monitor (open finding F5c).",
+        "level_note": "Partial (odometer refinement not proved). Trusted: Coq kernel + vm_compute; HashIndex as oracle.",
+    },
     "C05": {
         "props_file": "Props/C05.v",
         "theorems": ["c05_pass_bound", "c05_no_double_increment", "c05_release_on_finish", "c05_release_on_delete", "c05_store_steps", "c05_rollback", "c05_recover"],
